@@ -23,8 +23,20 @@ InnerBodies == { <<Decl(t, {"i", "j"})>> : t \in Templates } \cup { <<Decl("ctx"
 OuterBodies(r2) == { <<Decl(t, {"i"})>> : t \in Templates }
                    \cup { <<[k |-> "loop", v |-> "j", r |-> r2, body |-> b]>> : b \in InnerBodies }
                    \cup { <<Decl("ctx", {"i"}), [k |-> "loop", v |-> "j", r |-> r2, body |-> b]>> : b \in InnerBodies }
-Programs == { <<Decl("ctx", {}), [k |-> "loop", v |-> "i", r |-> r1, body |-> b], Decl("stream", {})>> :
+Programs1 == { <<Decl("ctx", {}), [k |-> "loop", v |-> "i", r |-> r1, body |-> b], Decl("stream", {})>> :
                  r1 \in Ranges, b \in UNION { OuterBodies(r2) : r2 \in Ranges } }
+\* layout: a loop may carry its own indentation unit w (spaces; 1 stands for a tab); loops without w use 4.  Several loops in one
+\* file - in sequence, or side by side inside one outer body - with different units must expand like each does alone.
+Widths == {1, 2, 4, 8}
+R2 == { [lo |-> 0, hi |-> 1, incl |-> TRUE], [lo |-> 1, hi |-> 3, incl |-> FALSE] }
+L(v, r, b, w) == [k |-> "loop", v |-> v, r |-> r, body |-> b, w |-> w]
+Programs2 == { <<L("i", r1, <<Decl(t1, {"i"})>>, w1), L("i", r2, <<Decl(t2, {"i"})>>, w2)>> :
+                  r1 \in R2, r2 \in R2, t1 \in {"ctx", "stream"}, t2 \in {"ctx", "multi"}, w1 \in Widths, w2 \in Widths }
+             \cup { <<L("i", r1, <<L("j", r2, <<Decl("ctx", {"i", "j"})>>, w1), L("j", r2, <<Decl("stream", {"i", "j"})>>, w2)>>, w0)>> :
+                  r1 \in R2, r2 \in R2, w0 \in {2, 4}, w1 \in Widths, w2 \in Widths }
+             \cup { <<L("i", r1, <<Decl("ctx", {"i"})>>, w1), Decl("ctx", {}), L("i", r2, <<L("j", r1, <<Decl("multi", {"i", "j"})>>, w2)>>, w1)>> :
+                  r1 \in R2, r2 \in R2, w1 \in Widths, w2 \in Widths }
+Programs == Programs1 \cup Programs2
 VARIABLE p
 Init == p \in Programs
 Next == UNCHANGED p
